@@ -1121,6 +1121,11 @@ class World:
             return None
         primary = [c for c in cands if c.spec is None]
         if kind is None:
+            # no kind: only explicitly written arguments can select a specialisation
+            for c in cands:
+                if c.spec is not None and len(c.spec) == len(args) and any(x in ("true", "false") for x in c.spec) and \
+                        all(x == a for x, a in zip(c.spec, args) if x in ("true", "false")):
+                    return c
             return primary[0] if primary else cands[0]
         prim = primary[0] if primary else None
         full = list(args)
